@@ -25,6 +25,7 @@ import (
 	"github.com/ipfs/boxo/pinning/pinner/dspinner"
 	cid "github.com/ipfs/go-cid"
 	ds "github.com/ipfs/go-datastore"
+	dsq "github.com/ipfs/go-datastore/query"
 	dssync "github.com/ipfs/go-datastore/sync"
 	ipld "github.com/ipfs/go-ipld-format"
 
@@ -34,9 +35,9 @@ import (
 func main() { vlib.Run("C22", run) }
 
 func run(c *vlib.Ctx) {
-	c.Rule("histories of 5-20 ops {Pin(recursive|direct,name), PinWithMode(6 modes), Unpin(+-recursive), Update(+-unpin), Flush, Reopen, SetAutosync} over a random DAG of 5-9 nodes with shared subtrees (+1 CID absent from the store); 30% of mutating ops run with a fault (1-2 blocks missing for the op, context cancelled before the op or at its n-th block fetch); full query vector for every pool CID after every op; stratum `clean` re-draws ops that would be a faulted recursive re-pin or an Update onto a directly pinned CID, stratum `any` does not; distinct = FNV of DAG+op list; non-trivial = some op returned an error while pins existed AND some CID was indirectly pinned through two roots or a recursive root lay below another root AND a pin was replaced (new name or direct->recursive)")
-	c.Cases("clean", c.N(400, 4000), func(k *vlib.Case) { oneHistory(k, true) })
-	c.Cases("any", c.N(200, 2000), func(k *vlib.Case) { oneHistory(k, false) })
+	c.Rule("histories of 5-20 ops {Pin(recursive|direct,name), PinWithMode(6 modes), Unpin(+-recursive), Update(+-unpin), Flush, Reopen, SetAutosync} over a random DAG of 5-9 nodes with shared subtrees (+1 CID absent from the store); 30% of mutating ops run with a fault (1-2 blocks missing for the op, context cancelled before the op, at its n-th block fetch or at its n-th datastore access); full query vector for every pool CID after every op; stratum `clean` re-draws ops that would be a faulted recursive re-pin or an Update onto a directly pinned CID, stratum `any` does not; distinct = FNV of DAG+op list; non-trivial = some op returned an error while pins existed AND some CID was indirectly pinned through two roots or a recursive root lay below another root AND a pin was replaced (new name or direct->recursive)")
+	c.Cases("clean", c.N(400, 2000), func(k *vlib.Case) { oneHistory(k, true) })
+	c.Cases("any", c.N(200, 1000), func(k *vlib.Case) { oneHistory(k, false) })
 }
 
 // ---------------------------------------------------------------- fault DAG
@@ -96,6 +97,64 @@ func (f *faultDAG) GetMany(ctx context.Context, cids []cid.Cid) <-chan *ipld.Nod
 	return out
 }
 
+// cancelDS cancels the operation's context at its n-th datastore access
+// (reads and writes counted alike). Accesses are sequential under the pinner
+// lock, so the cancellation point is deterministic.
+type cancelDS struct {
+	ds.Datastore
+	mu     sync.Mutex
+	n, at  int
+	cancel context.CancelFunc
+	fired  bool
+}
+
+func (c *cancelDS) arm(at int, cancel context.CancelFunc) {
+	c.mu.Lock()
+	c.n, c.at, c.cancel, c.fired = 0, at, cancel, false
+	c.mu.Unlock()
+}
+
+func (c *cancelDS) tick() {
+	c.mu.Lock()
+	if c.at >= 0 && c.cancel != nil {
+		if c.n == c.at {
+			c.cancel()
+			c.fired = true
+		}
+		c.n++
+	}
+	c.mu.Unlock()
+}
+
+func (c *cancelDS) Get(ctx context.Context, k ds.Key) ([]byte, error) {
+	c.tick()
+	return c.Datastore.Get(ctx, k)
+}
+func (c *cancelDS) Has(ctx context.Context, k ds.Key) (bool, error) {
+	c.tick()
+	return c.Datastore.Has(ctx, k)
+}
+func (c *cancelDS) GetSize(ctx context.Context, k ds.Key) (int, error) {
+	c.tick()
+	return c.Datastore.GetSize(ctx, k)
+}
+func (c *cancelDS) Query(ctx context.Context, q dsq.Query) (dsq.Results, error) {
+	c.tick()
+	return c.Datastore.Query(ctx, q)
+}
+func (c *cancelDS) Put(ctx context.Context, k ds.Key, v []byte) error {
+	c.tick()
+	return c.Datastore.Put(ctx, k, v)
+}
+func (c *cancelDS) Delete(ctx context.Context, k ds.Key) error {
+	c.tick()
+	return c.Datastore.Delete(ctx, k)
+}
+func (c *cancelDS) Sync(ctx context.Context, k ds.Key) error {
+	c.tick()
+	return c.Datastore.Sync(ctx, k)
+}
+
 // ---------------------------------------------------------------- model
 
 type model struct {
@@ -133,7 +192,7 @@ func (m *model) String() string {
 
 type world struct {
 	k      *vlib.Case
-	store  ds.Datastore
+	store  *cancelDS
 	fd     *faultDAG
 	p      ipfspin.Pinner
 	auto   bool
@@ -493,7 +552,7 @@ func describe(ms []mismatch) string {
 // ---------------------------------------------------------------- history
 
 type fault struct {
-	kind    string // "", "missing", "precancel", "cancel-at"
+	kind    string // "", "missing", "precancel", "cancel-at", "cancel-at-dsop"
 	missing []int
 	at      int
 }
@@ -506,6 +565,8 @@ func (f fault) String() string {
 		return " fault=ctx-cancelled-before"
 	case "cancel-at":
 		return fmt.Sprintf(" fault=cancel-at-fetch#%d", f.at)
+	case "cancel-at-dsop":
+		return fmt.Sprintf(" fault=cancel-at-datastore-access#%d", f.at)
 	}
 	return ""
 }
@@ -515,7 +576,7 @@ var nameChoices = []string{"", "", "n1", "n2", "a/b", "x\x00y", "n1"}
 func oneHistory(k *vlib.Case, clean bool) {
 	r := k.R
 	bg := context.Background()
-	store := dssync.MutexWrap(ds.NewMapDatastore())
+	store := &cancelDS{Datastore: dssync.MutexWrap(ds.NewMapDatastore()), at: -1}
 	bs := bstore.NewBlockstore(dssync.MutexWrap(ds.NewMapDatastore()))
 	real := mdag.NewDAGService(bserv.New(bs, offline.Exchange(bs)))
 	fd := &faultDAG{DAGService: real, cancelAfter: -1}
@@ -788,11 +849,13 @@ func oneHistory(k *vlib.Case, clean bool) {
 		}
 		// ---- choose the fault
 		if wantFault {
-			switch r.Intn(4) {
+			switch r.Intn(6) {
 			case 0:
 				f.kind = "precancel"
 			case 1:
 				f.kind, f.at = "cancel-at", r.Intn(4)
+			case 2, 3:
+				f.kind, f.at = "cancel-at-dsop", r.Intn(14)
 			default:
 				f.kind = "missing"
 				cnt := r.Range(1, 2)
@@ -814,13 +877,14 @@ func oneHistory(k *vlib.Case, clean bool) {
 			}
 		}
 		_, targetInR := w.m.R[target]
-		if clean && f.kind != "" && kind == "Pin-recursive" && targetInR {
+		repinR := (kind == "Pin-recursive" || kind == "PinWithMode-recursive") && targetInR
+		if clean && f.kind != "" && repinR {
 			f = fault{} // trigger of failed-repin/pin-lost
 		}
 		// how the fault changes what the statement lets us demand
 		if f.kind != "" && must == "succeed" {
 			switch f.kind {
-			case "precancel", "cancel-at":
+			case "precancel", "cancel-at", "cancel-at-dsop":
 				must = "either"
 			case "missing":
 				hit := false
@@ -854,9 +918,16 @@ func oneHistory(k *vlib.Case, clean bool) {
 			cancel()
 		}
 		fd.arm(miss, at, cancel)
+		if f.kind == "cancel-at-dsop" {
+			store.arm(f.at, cancel)
+		}
 		before := w.m.clone()
 		opErr := call(ctx)
 		_, fired := fd.disarm()
+		store.mu.Lock()
+		fired = fired || store.fired
+		store.mu.Unlock()
+		store.arm(-1, nil)
 		cancel()
 		k.C.Count("ops", 1)
 		if opErr != nil {
@@ -883,7 +954,7 @@ func oneHistory(k *vlib.Case, clean bool) {
 				stop = true
 				cls := "failed-op-changed-state/" + kind
 				// classify: is the only change that the re-pinned recursive root lost its pin?
-				if kind == "Pin-recursive" && targetInR && f.kind != "" {
+				if repinR && f.kind != "" {
 					alt := before.clone()
 					delete(alt.R, target)
 					if len(w.compareIgnoringKnown(obs, alt)) == 0 {
